@@ -5,10 +5,11 @@ use softposit::{P16E1, P8E0};
 
 macro_rules! f16 {
     ($name:ident, $method:ident, $tab:ident) => {
-        /// slice K of 16 by the top 4 input bits (K >= 16: no restriction)
+        /// slice K of 16 by the top 4 input bits; K == 16: the 256 "edge" inputs within 32 patterns of 0, 1, NaR
+        /// and -1 (minpos, maxpos, the longest regimes and the neighbourhood of 1 on both signs); K > 16: no restriction
         pub fn $name<const K: u32, S: Src>(s: &mut S) -> Outcome {
             let x = s.u16();
-            crate::assume!(s, K >= 16 || (x >> 12) as u32 == K);
+            crate::assume!(s, K > 16 || (K == 16 && (x.wrapping_add(32) & 0x3fff) < 64) || (x >> 12) as u32 == K);
             let got = P16E1::from_bits(x).$method().to_bits();
             cover!(x & 1 == 1);
             // index only the slice's 4096 entries (a 4096-way instead of a 65536-way selection for the solver)
